@@ -15,8 +15,17 @@ operations are `decode(symbol)`.
              (|S|^2 + 1 calls on one object, as a simulation would do); every
              call is compared with the same table.
 
+ pass mode   alphabets too large for pair histories ({0} + all weight-1 errors
+             + all weight-2 pure-X / pure-Z errors on larger lattices, i.e.
+             multi-cluster syndromes with competing corrections), cut into
+             slices; per slice object A decodes the slice forward then
+             backward, object B the slice rotated by half, and finally every
+             symbol once on a newly built object in the by then used process;
+             every call is compared with a clean-process reference.  Several
+             independently prepared histories per symbol inside ONE case.
+
 Reference ("fresh decoder"): a newly built decoder object per symbol.  In the
-walk cases with writable arguments each reference decode runs in its own
+walk and pass cases with writable arguments each reference decode runs in its own
 forked child of the still-clean case process (the runner forks one process
 per case), so state that panqec keeps outside the decoder object (module
 globals, mutable default arguments, class attributes) cannot leak into the
@@ -75,7 +84,9 @@ RULE = ('symbols = (syndrome, complete tie-break script); alphabet = all 2^rank 
         'tie-break, each with every answer script. exact mode: every history of the stated length from the initial '
         'state, each on its own decoder object (a prefix is re-executed for each extension; it is judged every time but '
         'counted once); walk mode: ONE object, de Bruijn walk covering every ordered pair of symbols as consecutive '
-        'calls. The decoder state is opaque, so states = distinct history prefixes executed (walk: positions of the '
+        'calls; pass mode (alphabet w2 = w1 + all weight-2 pure-X and pure-Z errors, sliced): per slice three long '
+        'histories on live objects (forward+backward, rotated) and one new object per symbol in the used process. '
+        'The decoder state is opaque, so states = distinct history prefixes executed (walk: positions of the '
         'walk); transitions = distinct decode calls made on an object that had already decoded (exact: one per history '
         'prefix of length >= 2; walk: every call but the first). A history is non-trivial when it contains a non-zero '
         'syndrome and its last call returned a correction; distinct = distinct symbol sequence of length >= 2 (walk: '
@@ -95,14 +106,15 @@ BOUNDS = {
     'quick': {'history_length': '2; 3 where the alphabet has <= 8 symbols, and for the 16-symbol alphabet in the uint8 '
                                 'form (Matching; BP-OSD with osd_order 10)',
               'depth3_max_alphabet': 16, 'depth3_all_forms_max': 8, 'full_alphabet_max': 64,
-              'tie_syndromes_max': 6, 'tie_scripts_per_syndrome_max': 81, 'mbp_max_bp_iter': 3,
+              'tie_syndromes_max': 3, 'tie_scripts_per_syndrome_max': 81, 'mbp_max_bp_iter': 3,
               'union_find_alphabet': 'weight-1', 'forms_exact': ['uint8', 'int64'],
               'forms_walk': ['uint8', 'int64', 'uint8-ro', 'int64-ro'],
               'noise': 'PauliErrorModel(0.2, 0.3, 0.5), p = 0.1; BP-OSD also with XZZX-deformed noise: (0.05, 0.05, 0.9) on '
                        'all four 2-D codes and (0.2, 0.3, 0.5) on Toric2D 2x2, channel_update off and on',
               'codes': 'RotatedPlanar2D 2x2 (8 syndromes), Planar2D 2x2 (16), RotatedPlanar2D 3x2 (32), Toric2D 2x2 (64); '
                        'weight-1 alphabets: XCube 2x2x2, Toric3D 2x2x2, Planar3D 2x2x2, RotatedPlanar3D 2x2x2; '
-                       'weight-1 X-error alphabet: XCube 4x2x2 (non-cubic)'},
+                       'weight-1 X-error alphabet: XCube 4x2x2 (non-cubic); pass mode (weight <= 2): union-find on '
+                       'Toric2D 3x3 and 4x4, Matching and BP-OSD (plain and XZZX-deformed biased noise) on Toric2D 3x3'},
     'thorough': {'history_length': '2; 3 where the alphabet has <= 32 symbols (MBP: <= 16), and for the 64-symbol '
                                    'alphabet in the uint8 form (Matching; BP-OSD with osd_order 10)',
                  'depth3_max_alphabet': 64, 'depth3_all_forms_max': 32, 'full_alphabet_max': 64,
@@ -115,7 +127,8 @@ BOUNDS = {
                           'alphabets on the smallest size of 14 further classes (undeformed and first deformation), '
                           'sweep decoders on Toric3D 2x2x3 / 3x3x3, RotatedToric3D 2x2x2, RotatedPlanar3D 3x3x3 and the '
                           'bare sweepers; non-cubic X-cube lattices 4x2x2 and 2x3x2 (weight-1), 3x3x2 and 4x3x2 '
-                          '(weight-1 X errors)'},
+                          '(weight-1 X errors); pass mode also: union-find Toric2D 5x5 and 3x4, Matching Toric2D 5x5 and '
+                          'Planar2D 4x4, BP-OSD Toric2D 4x4 and XZZX-deformed Toric2D 3x3, XCube 3x2x2'},
 }
 ISOLATE = True            # one forked process per case: module-level state of panqec starts clean
 BUDGET_S = {'quick': 900, 'thorough': 10800}
@@ -147,6 +160,14 @@ def _emit(out, cfg, depth, exact_forms, walk_forms, shards):
         c = dict(cfg)
         c.update({'mode': 'walk', 'depth': 2, 'form': form, 'shard': [0, 1]})
         out.append(c)
+
+
+def _emit_pass(out, cfg, forms, shards):
+    for form in forms:
+        for i in range(shards):
+            c = dict(cfg)
+            c.update({'mode': 'pass', 'depth': 2, 'form': form, 'shard': [i, shards]})
+            out.append(c)
 
 
 def cases(tier, seed):
@@ -210,6 +231,25 @@ def cases(tier, seed):
     else:
         _emit(out, _cfg('UnionFindDecoder', 'Toric2DCode', [2, 2], 'full'), 2, fe, fw, 64)
         _emit(out, _cfg('UnionFindDecoder', 'Toric2DCode', [3, 3], 'w1'), 2, ['uint8'], ['int64', 'uint8-ro'], 28)
+    # --- pass mode: alphabets too large for pair histories (all errors of weight <= 2 on larger lattices, i.e.
+    # syndromes with several defect clusters and competing corrections).  Every symbol of a shard is decoded after
+    # three independently prepared long histories on live objects and compared with a clean-process reference.
+    _emit_pass(out, _cfg('UnionFindDecoder', 'Toric2DCode', [3, 3], 'w2'), ['uint8', 'int64'], 2)
+    _emit_pass(out, _cfg('UnionFindDecoder', 'Toric2DCode', [4, 4], 'w2'), ['uint8'] if quick else fe, 8)
+    _emit_pass(out, _cfg('MatchingDecoder', 'Toric2DCode', [3, 3], 'w2'), ['uint8'], 1)
+    for noise, nd in ((NOISE, None), (BIASED, 'XZZX')):
+        _emit_pass(out, _cfg('BeliefPropagationOSDDecoder', 'Toric2DCode', [3, 3], 'w2', noise=noise,
+                             noise_deformation=nd, params={'channel_update': False, 'osd_order': 10}), ['uint8'], 1)
+    if not quick:
+        _emit_pass(out, _cfg('UnionFindDecoder', 'Toric2DCode', [5, 5], 'w2'), fe, 32)
+        _emit_pass(out, _cfg('UnionFindDecoder', 'Toric2DCode', [3, 4], 'w2'), ['uint8'], 4)
+        _emit_pass(out, _cfg('MatchingDecoder', 'Toric2DCode', [5, 5], 'w2'), ['uint8'], 8)
+        _emit_pass(out, _cfg('MatchingDecoder', 'Planar2DCode', [4, 4], 'w2'), ['uint8'], 4)
+        _emit_pass(out, _cfg('BeliefPropagationOSDDecoder', 'Toric2DCode', [4, 4], 'w2', noise=BIASED,
+                             noise_deformation='XZZX', params={'channel_update': True, 'osd_order': 10}), ['uint8'], 4)
+        _emit_pass(out, _cfg('BeliefPropagationOSDDecoder', 'Toric2DCode', [3, 3], 'w2', deformation='XZZX',
+                             params={'channel_update': False, 'osd_order': 10}), ['uint8'], 2)
+        _emit_pass(out, _cfg('XCubeMatchingDecoder', 'XCubeCode', [3, 2, 2], 'w2'), ['uint8'], 16)
     # --- XCube matching (embeds three matching decoders and a BP-OSD decoder)
     _emit(out, _cfg('XCubeMatchingDecoder', 'XCubeCode', [2, 2, 2], 'w1'), 2,
           ['uint8'] if quick else fe, fw, 16)
@@ -248,7 +288,7 @@ def cases(tier, seed):
     for dec, cls, size, sh in sweeps:
         t = 0 if max(size) >= 3 and size != [2, 2, 3] else ties
         _emit(out, _cfg(dec, cls, size, 'w1+ties' if t else 'w1', ties=t), 2, ['uint8'],
-              ['int64', 'uint8-ro'], sh)
+              ['int64'] if quick else ['int64', 'uint8-ro'], sh)
     return out
 
 
@@ -269,7 +309,7 @@ class _Ctx:
         # reference outcomes from clean child processes: in the walk cases with writable arguments (one or two per
         # configuration; a fork costs ~10 ms, so not in every shard).  Elsewhere the reference decoders are new
         # objects in this case's own process, which starts clean but accumulates whatever panqec keeps globally.
-        self.clean_reference = case['mode'] == 'walk' and not case['form'].endswith('-ro')
+        self.clean_reference = case['mode'] in ('walk', 'pass') and not case['form'].endswith('-ro')
         self.n = self.code.n
         self.H = gf2.matrix_rows(self.code.stabilizer_matrix)
         self.m = len(self.H)
@@ -405,6 +445,12 @@ def _alphabet(ctx, kind):
         S = set(gf2.span(gens))
     else:
         S = set([0] + gens)
+    if kind == 'w2':
+        # + all weight-2 pure-X and pure-Z errors (sector-wise zero syndromes with up to four defects)
+        for q in range(n):
+            for r in range(q + 1, n):
+                S.add(gf2.syndrome(H, (1 << q) | (1 << r), n))
+                S.add(gf2.syndrome(H, (1 << (n + q)) | (1 << (n + r)), n))
     return sorted(S, key=lambda v: (gf2.popcount(v), v))
 
 
@@ -486,7 +532,10 @@ def eval_case(case):
         return res
 
     # ---- alphabet of symbols and table of fresh-decoder outcomes (reference form: writable, same dtype)
-    syndromes = _alphabet(ctx, case['alphabet'] if case['alphabet'] in ('full', 'w1x') else 'w1')
+    syndromes = _alphabet(ctx, case['alphabet'] if case['alphabet'] in ('full', 'w1x', 'w2') else 'w1')
+    if case['mode'] == 'pass':
+        i0, k = case['shard']
+        syndromes = syndromes[i0::k]           # each shard: its own slice of the alphabet, its own objects
     if case['alphabet'] == 'full' and len(syndromes) > 64:
         raise AssertionError('full alphabet larger than the stated bound')
     symbols, fresh, fresh_valid = [], {}, {}
@@ -541,7 +590,7 @@ def eval_case(case):
         return finish()
     # two fresh decoders must agree (otherwise "fresh decoder" is not a reference): probe the first symbols again,
     # now in this process (the first of these calls is still the first decode of the process)
-    for sym in symbols[:4]:
+    for sym in ([] if case['mode'] == 'pass' else symbols[:4]):      # (pass mode does this for every symbol, below)
         oc, _ = ctx.call(ctx.new(), sym, dt_name)
         if oc != fresh[sym]:
             report('history-dependence', 1, {'history': [show(sym)],
@@ -634,6 +683,40 @@ def eval_case(case):
                         res['samples'].append({'decoder': case['decoder'], 'code': '%s%s' % (case['cls'], tuple(case['size'])),
                                                'form': form, 'history': [show(h) for h in hist],
                                                'equal_to_fresh': oc == fresh[hist[-1]], 'outcome': _describe(oc)})
+    elif case['mode'] == 'pass':
+        # three independently prepared long histories, each on its own live object: the slice forward and then
+        # backward on object A (every symbol after two different histories), and rotated by half on object B
+        half = N // 2
+        plans = [('forward-then-backward', list(range(N)) + list(range(N - 1, -1, -1))),
+                 ('rotated', list(range(half, N)) + list(range(half)))]
+        seen_nt = set()
+        for name, order in plans:
+            d = ctx.new()
+            res['states'] += 1
+            for pos, i in enumerate(order):
+                sym = symbols[i]
+                hist = [symbols[order[pos - 1]], sym] if pos else [sym]
+                oc = check(d, sym, hist, len(hist))
+                if oc is None:
+                    return finish()
+                res['states'] += 1
+                if pos:
+                    res['transitions'] += 1
+                    if oc[0] == 'ok' and (symbols[order[pos - 1]][0] or sym[0]):
+                        seen_nt.add((order[pos - 1], i))
+                outcomes.add(_digest(oc[:4]))
+            res['traces'] += 1
+        # and every symbol once more on a newly built object in this, by now much used, process: a difference here
+        # is state kept outside the decoder object (history_len 1, state_outside_object)
+        for i in range(N):
+            oc = check(ctx.new(), symbols[i], [symbols[i]], 1)
+            if oc is None:
+                return finish()
+            res['traces'] += 1
+        res['nontrivial'] = len(seen_nt)
+        res['samples'].append({'decoder': case['decoder'], 'code': '%s%s' % (case['cls'], tuple(case['size'])),
+                               'form': form, 'symbols_in_slice': N, 'calls_on_live_objects': 3 * N,
+                               'example_symbol': show(symbols[-1])})
     else:
         walk = _de_bruijn_pairs(N)
         d = ctx.new()
